@@ -66,6 +66,15 @@ def build(prog, x0=None, via_ctor=False, initialize=True, ns=None, rules=()):
                 dtype, dd = "fixed", {"delay": 0.0}
             rtuples.append((re_, pr_, ptype, pd, dtype, dre, dpr, dd))
     decl = [sname(s) for s in prog["decl"]]
+    # bioscrape requires species that only occur inside a propensity (Hill regulator / proportional
+    # species) to be declared before the reaction is created: declare them after the listed ones
+    for rx in prog["rx"]:
+        if rx["law"]["type"] != "massaction":
+            for key in ("s1", "d"):
+                if key == "d" and not rx["law"]["type"].startswith("proportional"):
+                    continue
+                if sname(rx["law"][key]) not in decl:
+                    decl.append(sname(rx["law"][key]))
     ic = {sname(i + 1): (f(x0[i]) if x0 is not None else 0.0) for i in range(ns)}
     if via_ctor:
         m = Model(species=decl, reactions=rtuples, parameters=list(params.items()), rules=list(rules),
